@@ -91,7 +91,7 @@ inline Gen<Container> container(const DocOpts &o, const char16_t *stem, int idx,
         }
         if (depth < oo.frame_depth) {
             int nframes = *sized(0, oo.max_frames);
-            for (int f = 0; f < nframes; f++) c.frames.push_back(*rc::gen::scale(0.6, container(oo, u"f", f, depth + 1)));
+            for (int f = 0; f < nframes; f++) c.frames.push_back(*rc::gen::scale(0.6, container(oo, depth == 0 ? u"f" : depth == 1 ? u"g" : u"h", f, depth + 1)));   // codes differ by level
         }
         return c;
     });
